@@ -140,6 +140,10 @@ def c04(chk, tier):
                      seq_over(AeadC=aead, Starts='"zero"', RecordHist=True, MaxSeals=6 if thorough else 4,
                               HistLen=5 + (6 if thorough else 4)),
                      invariants=["PrintHist"], on_value=onb, workers=1)
+        # 4. long runs: an exhausted sender refuses 2^20+ times in a row, exports stay put (see also C05's long runs)
+        sender_soak(chk, ses, (1 << 24) + 5 if thorough else (1 << 20) + (1 << 16) + 3)
+        # ... and keeps sealing whatever the TOTAL number of bytes: 64 MiB in quick, past 2^32 bytes in thorough
+        bulk_soak(chk, ses, 270 if thorough else 4)
     finally:
         ses.close()
     require_outcomes(chk, ['seal/ok', 'seal/err/MessageLimitReached', 'seal_huge/err/SealError'])
@@ -241,6 +245,80 @@ def c05(chk, tier):
                        "position 0; distinct = distinct (aead, delivery kind, source, pre-counter, latch, form, outcome)")
 
 
+def soak_steps(chk, ex, script, steps, plain_ok, tag):
+    """steps: (command, expected number of conforming iterations | None for an ordinary call judged by plain_ok)"""
+    for cmd, want in steps:
+        ev = ex.call(cmd)
+        script.append(cmd)
+        good = "ok" in ev and (want is None or ev["ok"].get("done") == want)
+        if want is None and good:
+            good = plain_ok(ev)
+        if not good:
+            what = ("after %s conforming iterations: %s" % (ev["ok"].get("done"), ev["ok"].get("bad"))) if "ok" in ev and want is not None \
+                else json.dumps({k: ev.get(k) for k in ("ok", "err", "panic")})[:200]
+            chk.violation("long run on one session (%s %s, n=%s): %s" % (cmd["op"], cmd.get("mode", ""), cmd.get("n", 1), what),
+                          {"kind": "trace", "script": script, "why": what, "event": ev, "fingerprint": tag + "-soak-" + cmd.get("mode", cmd["op"])})
+            return False
+    return True
+
+
+def sender_soak(chk, ses, n):
+    """the sender's side of the long runs: n exports with the same arguments are all equal (also on the peer), n seals on
+    an exhausted context are all refused with MessageLimitReached and an untouched buffer, and the export after all that
+    is still the same value"""
+    import hashlib
+    ex = ses.ex
+    hx = lambda tag, k: hashlib.shake_128(("sendersoak-%d-%s" % (seed(), tag)).encode()).hexdigest(k)
+    aead, kdf = rot([1, 2, 3], 1), rot([1, 2, 3], 2)
+    nk, nh = {1: 16, 2: 32, 3: 32}[aead], {1: 32, 2: 48, 3: 64}[kdf]
+    raw = {"op": "raw_ctx", "suite": [16, kdf, aead], "key": hx("key", nk), "base_nonce": hx("bn", 12), "exporter_secret": hx("exp", nh)}
+    script = [dict(raw, ctx="ss_s", role="S"), dict(raw, ctx="ss_r", role="R")]
+    for c in script:
+        if "ok" not in ex.call(c):
+            raise ToolError("soak: cannot build the session")
+    first = {}
+
+    def same(ev):
+        first.setdefault("out", ev["ok"].get("out"))
+        return ev["ok"].get("out") == first["out"]
+    exp = lambda c: {"op": "export", "ctx": c, "exporter_ctx": "e0e1", "len": 40}
+    steps = [(exp("ss_s"), None),
+             ({"op": "soak", "mode": "export", "ctx": "ss_s", "n": n, "aad": "e0e1", "len": 40}, n),
+             ({"op": "soak", "mode": "export", "ctx": "ss_r", "n": 70000, "aad": "e0e1", "len": 40}, 70000),
+             (exp("ss_r"), None),
+             ({"op": "set_seq", "ctx": "ss_s", "seq": "ff" * 8, "ovf": True}, None),
+             ({"op": "soak", "mode": "refuse", "ctx": "ss_s", "n": n, "aad": "", "pt": hx("pt", 33)}, n),
+             (exp("ss_s"), None)]
+    ok = soak_steps(chk, ex, script, steps, lambda ev: ("out" not in ev["ok"]) or same(ev), "sender")
+    for c in ("ss_s", "ss_r"):
+        ex.call({"op": "drop", "ctx": c})
+    if ok:
+        chk.case(("sender-soak", aead, kdf, n))
+        chk.trace_ok()
+    return ok
+
+
+def bulk_soak(chk, ses, n, size=16 << 20):
+    import hashlib
+    ex = ses.ex
+    hx = lambda tag, k: hashlib.shake_128(("bulksoak-%d-%s" % (seed(), tag)).encode()).hexdigest(k)
+    for aead in ((1, 2, 3) if n > 50 else (rot([1, 2], 0),)):
+        nk = {1: 16, 2: 32, 3: 32}[aead]
+        n = n if aead == 1 or n <= 50 else 70          # (the full 4 GiB+ on one AEAD, 1 GiB+ on the others)
+        script = [{"op": "raw_ctx", "ctx": "bulk_s", "role": "S", "suite": [32, 1, aead], "key": hx("key", nk),
+                   "base_nonce": hx("bn", 12), "exporter_secret": hx("exp", 32)}]
+        if "ok" not in ex.call(script[0]):
+            raise ToolError("soak: cannot build the sender")
+        ok = soak_steps(chk, ex, script, [({"op": "soak", "mode": "bulk", "ctx": "bulk_s", "n": n, "size": size, "aad": "00"}, n)],
+                        lambda ev: True, "bulk")
+        ex.call({"op": "drop", "ctx": "bulk_s"})
+        if not ok:
+            return False
+        chk.case(("bulk", aead, n, size))
+        chk.trace_ok()
+    return True
+
+
 def c05_soak(chk, ses, n_reject, n_round):
     """Long runs the bounded model cannot enumerate but whose prediction follows by induction from the per-step
     properties (a rejected open is a stutter step; an accepted one advances by one): n_reject consecutive rejected
@@ -265,18 +343,8 @@ def c05_soak(chk, ses, n_reject, n_round):
                  ({"op": "soak", "mode": "reject", "ctx": "soak_r", "n": 70000, "ct": ct0, "aad": "ab"}, 70000),
                  ({"op": "open", "ctx": "soak_r", "form": "alloc", "ct": ct0, "aad": "aa"}, None),
                  ({"op": "soak", "mode": "roundtrip", "ctx": "soak_r", "ctx_s": "soak_s", "n": n_round, "pt": hx("pt2", 24), "aad": ""}, n_round)]
-        for cmd, want in steps:
-            ev = ex.call(cmd)
-            script.append(cmd)
-            good = "ok" in ev and (want is None or ev["ok"].get("done") == want)
-            if want is None and good:
-                good = ev["ok"].get("pt") == script[2]["pt"]
-            if not good:
-                what = ("after %s conforming iterations: %s" % (ev["ok"].get("done"), ev["ok"].get("bad"))) if "ok" in ev and want is not None \
-                    else json.dumps({k: ev.get(k) for k in ("ok", "err", "panic")})[:200]
-                chk.violation("long run on one session (%s %s, n=%s): %s" % (cmd["op"], cmd.get("mode", ""), cmd.get("n", 1), what),
-                              {"kind": "trace", "script": script, "why": what, "event": ev, "fingerprint": "c05-soak-" + cmd.get("mode", "open")})
-                return False
+        if not soak_steps(chk, ex, script, steps, lambda ev: ev["ok"].get("pt") == script[2]["pt"], "c05"):
+            return False
         for c in ("soak_s", "soak_r"):
             ex.call({"op": "drop", "ctx": c})
         chk.case(("soak", aead, n_reject, n_round))
@@ -838,6 +906,10 @@ def c11(chk, tier):
                      seq_over(AeadC=2, KdfC=kdf, Starts='"zero"', ExpMenu='"ctxsweep"', SweepFrom=0, SweepTo=1100 if thorough else 520,
                               Emit=True, MaxSeals=0, MaxExports=1),
                      invariants=[], on_value=onl, workers=4)
+            # ... and around every power of two up to 2^16, also 22 bytes below it (where the HASHED string gets there)
+            generate(chk, "MC_Seq", "MC_Seq.cfg", "gen_ctxpow2_%d" % kdf,
+                     seq_over(AeadC=2, KdfC=kdf, Starts='"zero"', ExpMenu='"ctxpow2"', Emit=True, MaxSeals=0, MaxExports=1),
+                     invariants=[], on_value=onl, workers=4)
             batch.run()
         if thorough:
             # every L in 0..=65535 once per KDF (and beyond the 2^16 limit)
@@ -864,6 +936,8 @@ def c11(chk, tier):
                                          MaxSeals=2, MaxOpens=2, MaxExports=2),
                               want=lambda last, tr: last["op"] == "export" or (last["op"] in ("seal", "open") and last["kind"] == "panic"),
                               casekey=tr_key("c11"))
+        # repeatable - also the 100 000th time, and after an exhausted context refused as many seals
+        sender_soak(chk, ses, (1 << 20) + 9 if thorough else 100003)
     finally:
         ses.close()
     require_outcomes(chk, ['export/ok', 'export/err/KdfOutputTooLong', 'seal/panic', 'open/panic'])
